@@ -332,7 +332,7 @@ func ruleSlotFill(c *core.Ctx, a *epAnchors, lc *core.LockCache, rule string) {
 				i2, ok := a.slotLoadIndex(v)
 				return ok && core.SameValue(i2, ia.Index)
 			}
-			if !core.Guarded(fn, st, core.Eq(isSlot, core.IsNilConst)) {
+			if !core.Guarded(fn, st, core.Eq(isSlot, core.IsNilConst)) && !a.indexFromFreeSlotHelper(c, ia.Index) {
 				c.Fail(rule, key, st.Pos(), "MakeHandler overwrites a slot that was not tested to be nil: a live handler is dropped without being closed, or its id is reused before removal")
 				continue
 			}
@@ -417,19 +417,55 @@ func ruleSendOwner(c *core.Ctx, a *epAnchors, lc *core.LockCache, rule string) {
 				}
 				n++
 				key := "send(consumer)@" + core.FuncKey(fn)
+				// the enqueue may live in a private helper (e.g. a method of Handler) that
+				// is only called from dispatch: the conditions are then checked at that call
+				site := in
+				siteFn := fn
+				hval := ch
 				if fn != a.dispatch {
-					c.Fail(rule, key, in.Pos(), "a message is sent on a handler queue outside dispatch: it can race with the close of the queue (send on closed channel)")
-					continue
+					sites, _ := c.CallSites()
+					ok := isPrivateHelper(c, fn) && len(sites[fn]) > 0
+					for _, cs := range sites[fn] {
+						if cs.Parent() != a.dispatch {
+							ok = false
+						}
+					}
+					if !ok || len(sites[fn]) != 1 {
+						c.Fail(rule, key, in.Pos(), "a message is sent on a handler queue outside dispatch: it can race with the close of the queue (send on closed channel)")
+						continue
+					}
+					cs := sites[fn][0]
+					if _, plain := cs.(*ssa.Call); !plain {
+						c.Fail(rule, key, in.Pos(), "the enqueue helper is started asynchronously or deferred")
+						continue
+					}
+					// the handler is the helper's receiver/parameter the channel is loaded from
+					root := core.RootOf(ch)
+					pi := -1
+					for i, p := range fn.Params {
+						if ssa.Value(p) == root {
+							pi = i
+						}
+					}
+					if pi < 0 {
+						c.Fail(rule, key, in.Pos(), "the queue written by the helper does not belong to the handler it was given")
+						continue
+					}
+					site, siteFn = cs.(ssa.Instruction), a.dispatch
+					hval = cs.Common().Args[pi]
 				}
 				if blocking {
 					c.Fail(rule, key, in.Pos(), "dispatch blocks on a full handler queue while holding handlersMutex: one slow consumer stalls the connection (and every RemoveHandler/MakeHandler)")
 					continue
 				}
-				if h, _ := lc.Get(fn).HeldAt(in, a.class, true); !h {
+				if h, _ := lc.Get(siteFn).HeldAt(site, a.class, true); !h {
 					c.Fail(rule, key, in.Pos(), "message enqueued without handlersMutex: it can be sent after the queue was closed, and arrival order is no longer kept")
 					continue
 				}
-				hroot := core.RootOf(ch)
+				hroot := core.RootOf(hval)
+				if siteFn != fn {
+					hroot = core.Canon(hval)
+				}
 				idx, ok := a.slotLoadIndex(hroot)
 				if !ok {
 					c.Fail(rule, key, in.Pos(), "the handler whose queue receives the message is not read from a handlers slot")
@@ -439,11 +475,11 @@ func ruleSendOwner(c *core.Ctx, a *epAnchors, lc *core.LockCache, rule string) {
 					i2, ok := a.slotLoadIndex(v)
 					return ok && core.SameValue(i2, idx)
 				}
-				if !core.Guarded(fn, in, core.Ne(isSlot, core.IsNilConst)) {
+				if !core.Guarded(siteFn, site, core.Ne(isSlot, core.IsNilConst)) {
 					c.Fail(rule, key, in.Pos(), "send on the queue of a slot not tested against nil")
 					continue
 				}
-				if ld, ok := hroot.(ssa.Instruction); ok && ld.Parent() == fn && unlockBetween(fn, ld, in, a.class) {
+				if ld, ok := hroot.(ssa.Instruction); ok && ld.Parent() == siteFn && unlockBetween(siteFn, ld, site, a.class) {
 					c.Fail(rule, key, in.Pos(), "handlersMutex is released between reading the handler slot and sending on its queue: the queue can be closed in between (send on closed channel)")
 					continue
 				}
@@ -459,7 +495,7 @@ func ruleSendOwner(c *core.Ctx, a *epAnchors, lc *core.LockCache, rule string) {
 					}
 					return core.RootOf(call.Call.Value) == hroot
 				}
-				if !core.Guarded(fn, in, core.IsTrue(isMatched)) {
+				if !core.Guarded(siteFn, site, core.IsTrue(isMatched)) {
 					c.Fail(rule, key, in.Pos(), "a handler's queue receives a message its own filter did not select")
 					continue
 				}
@@ -802,4 +838,37 @@ func unlockBetween(fn *ssa.Function, a, b ssa.Instruction, class core.LockClass)
 		}
 	}
 	return false
+}
+
+// indexFromFreeSlotHelper: idx is the result of a private helper every
+// non-negative-constant return of which is guarded, inside the helper, by
+// handlers[result] == nil (a "find a free slot" helper).
+func (a *epAnchors) indexFromFreeSlotHelper(c *core.Ctx, idx ssa.Value) bool {
+	call, _ := core.CallResult(core.Canon(idx))
+	if call == nil {
+		return false
+	}
+	h := call.Call.StaticCallee()
+	if h == nil || !isPrivateHelper(c, h) || len(h.Blocks) == 0 {
+		return false
+	}
+	n := 0
+	for _, ret := range core.Returns(h) {
+		if len(ret.Results) == 0 {
+			return false
+		}
+		rv := core.RetVal(ret, 0)
+		if k, isConst := core.ConstInt(rv); isConst && k < 0 {
+			continue // "no free slot"
+		}
+		n++
+		isSlot := func(v ssa.Value) bool {
+			i2, ok := a.slotLoadIndex(v)
+			return ok && core.SameValue(i2, rv)
+		}
+		if !core.Guarded(h, ret, core.Eq(isSlot, core.IsNilConst)) {
+			return false
+		}
+	}
+	return n > 0
 }
